@@ -103,6 +103,26 @@ type extGen struct {
 	builtinDup []string // built-in names reserved for duplication in this run
 }
 
+// extMenu are file name extensions: a name says nothing about the content.
+var extMenu = []string{".csv", ".json", ".jar", ".svg", ".txt", ".zip", ".xml", ".html", ".png", ".tar", ".JSON", ".geojson", ".ndjson", ".mp4", ".mov", ".docx", ".xlsx", ".apk", ".epub", ".ogg", ".wav", ".har", ".gltf", ".tsv", ".dat", ""}
+
+// nameExt draws a name extension for a file: mostly none, sometimes one from the
+// menu, sometimes the extension the library itself gives to ANOTHER sample.
+func nameExt(r *core.Rand) string {
+	switch r.Intn(6) {
+	case 0:
+		return extMenu[r.Intn(len(extMenu))]
+	case 1:
+		if n := len(inputs.Corpus()); n > 0 {
+			b := lib.B(inputs.Input{Fam: "corpus", V: r.Intn(n)}.Bytes(), 0)
+			if !b.Nil && len(b.Chain) > 0 {
+				return b.Chain[0].Ext
+			}
+		}
+	}
+	return ""
+}
+
 // bigLimit draws a limit far above every input: code paths that size, pool or
 // grow buffers by the limit (thresholds at 64 KiB, 1 MiB, 16 MiB, ...) are only
 // entered then. Bounded by what a limit-sized allocation costs per call.
@@ -175,14 +195,19 @@ func (g *extGen) trap(v int) *model.Ext {
 }
 
 // builtinDupMenu are built-in formats an extension may be named after in a collide run.
-var builtinDupMenu = []string{"application/json", "application/zip", "image/png", "application/pdf", "text/csv", "application/gzip", "image/svg+xml", "application/x-ole-storage", "application/geo+json"}
+var builtinDupMenu = []string{"application/json", "application/zip", "image/png", "application/pdf", "text/csv", "application/gzip", "image/svg+xml", "application/x-ole-storage", "application/geo+json",
+	// strings that built-in formats carry as ALIASES (kept only where the pristine tree confirms it)
+	"application/x-zip-compressed", "audio/x-wav", "application/x-gzip", "audio/mp3", "application/x-pdf", "audio/x-flac", "image/x-ms-bmp", "application/x-tar", "text/x-csv", "application/x-rar", "video/x-m4v", "audio/x-m4a", "application/msword", "text/rtf", "application/x-javascript", "image/x-icon", "application/xml"}
 
 // setCollide switches the collide mode on and reserves one or two built-in names.
 func (g *extGen) setCollide() {
 	g.collideOn = true
 	g.ambiguous = map[string]bool{}
-	for i, n := 0, g.r.Range(1, 2); i < n; i++ {
+	for i, n := 0, g.r.Range(1, 3); i < n; i++ {
 		nm := builtinDupMenu[g.r.Intn(len(builtinDupMenu))]
+		if lib.LB(nm).Nil {
+			continue // the pristine tree does not know that string
+		}
 		if !g.ambiguous[nm] {
 			g.ambiguous[nm] = true
 			g.builtinDup = append(g.builtinDup, nm)
@@ -192,6 +217,9 @@ func (g *extGen) setCollide() {
 
 // mayLookup says whether a name may be given to Lookup (or used to find a parent) in this run.
 func (g *extGen) mayLookup(name string) bool {
+	if strings.TrimSpace(name) == "" {
+		return false // a blank alias is not a name
+	}
 	// every name may be looked up: the model knows which of several equally named
 	// nodes Lookup's depth-first search reaches first (and accepts either where
 	// that depends on the order of two built-in siblings)
@@ -281,7 +309,7 @@ func (g *extGen) ext() *model.Ext {
 		p := g.made[g.r.Intn(len(g.made))]
 		var names []string
 		for _, nm := range p.Names() {
-			if !g.dupName[nm] && !g.ambiguous[nm] {
+			if !g.dupName[nm] && !g.ambiguous[nm] && g.mayLookup(nm) {
 				names = append(names, nm)
 			}
 		}
@@ -390,6 +418,11 @@ func (g *extGen) ext() *model.Ext {
 	} else {
 		for j, n := 0, g.r.Intn(4); j < n; j++ {
 			e.Aliases = append(e.Aliases, fmt.Sprintf("x-verif/a%d-%d", id, j))
+		}
+		if g.collideOn && len(e.Aliases) > 0 && g.r.Chance(1, 6) {
+			// a blank entry in the alias list (a split of ",a,b"): nothing to look up, nothing
+			// to compare - and nothing that entitles the library to rearrange the caller's slice
+			e.Aliases[g.r.Intn(len(e.Aliases))] = []string{"", " ", "\t"}[g.r.Intn(3)]
 		}
 		if g.collideOn && g.r.Chance(1, 4) {
 			// an alias that is byte-equal to the type of another format
@@ -510,7 +543,7 @@ func (g *extGen) acceptingOn(parent string, on *model.Ext, x []byte) *model.Ext 
 	e := &model.Ext{ID: id, ParentExt: -1, Arr: -1, Parent: parent,
 		Mime: fmt.Sprintf("x-verif/e%d", id), Extension: fmt.Sprintf(".e%d", id)}
 	if on != nil {
-		names := on.Names()
+		names := g.lookupNames(on)
 		e.Parent, e.ParentExt = names[g.r.Intn(len(names))], on.ID
 		if g.parentName == nil {
 			g.dupName, g.parentName = map[string]bool{}, map[string]bool{}
